@@ -127,7 +127,14 @@ Record inc_st := mkInc {
   i_junk : Z                       (* incidents abandoned for ever: .flog + .flog.bz2.tmp left behind *)
 }.
 
-Record cfg := mkCfg { c_qual : bool (* setLogDir called *); c_trailing : bool (* IncidentReporter vs NonTrailing *) }.
+(* faults of the synchronous incident handling (inputs of the model, not defects of foolscap):
+   QualifierRaises = the qualifier's check_event raises for events of incident level;
+   ReporterRaises  = incident_declared raises before creating any file (logdir removed / not a directory /
+                     a reporter factory whose incident_declared raises) *)
+Inductive fault := NoFault | QualifierRaises | ReporterRaises.
+
+Record cfg := mkCfg { c_qual : bool (* setLogDir called *); c_trailing : bool (* IncidentReporter vs NonTrailing *);
+                      c_fault : fault }.
 
 Record decl_acc := mkAcc { a_lines : list event; a_registered : bool; a_timer : bool; a_finished : bool; a_failed : bool }.
 
@@ -163,7 +170,16 @@ Definition is_some {A} (o : option A) : bool := match o with Some _ => true | No
 Definition declare_incident (c : cfg) (b : bufs_t) (i : inc_st) (e : event) : inc_st * bool :=
   let i1 := mkInc (i_rep i) (i_zombie i) (i_declared i + 1) (i_recorded i) (i_files i) (i_junk i) in
   if one_reporter_at_a_time && (is_some (i_rep i) || i_zombie i) then (i1, false)     (* ir.new_trigger: nothing *)
-  else incident_declared c b i1 e.
+  else match c_fault c with
+       | ReporterRaises => (mkInc None true (i_declared i1) (i_recorded i1) (i_files i1) (i_junk i1), true)
+       | _ => incident_declared c b i1 e
+       end.
+
+(* IncidentQualifier.event, called synchronously at the end of add_event *)
+Definition qualifier_stage (c : cfg) (b : bufs_t) (i : inc_st) (e : event) : inc_st * bool :=
+  if c_qual c && cmpZ incident_cmp (e_lvl e) incident_level
+  then match c_fault c with QualifierRaises => (i, true) | _ => declare_incident c b i e end
+  else (i, false).
 
 (* IncidentReporter.trailing_event, run from the eventual-send queue (an exception is swallowed there) *)
 Definition trailing_event (i : inc_st) (ev : event) : inc_st :=
@@ -195,9 +211,7 @@ Definition add_stage_step (c : cfg) (sz : sizes_t) (e : event) (a : ae_acc) (stg
     | Some (q, raised) => mkAe (buf_set (x_bufs a) (e_fac e) (e_lvl e) q) (x_inc a) raised (x_notified a)
     end
   | StQualifier =>
-    if c_qual c && cmpZ incident_cmp (e_lvl e) incident_level
-    then let '(i', raised) := declare_incident c (x_bufs a) (x_inc a) e in mkAe (x_bufs a) i' raised (x_notified a)
-    else a
+    let '(i', raised) := qualifier_stage c (x_bufs a) (x_inc a) e in mkAe (x_bufs a) i' raised (x_notified a)
   end.
 
 Definition add_event (c : cfg) (sz : sizes_t) (b : bufs_t) (i : inc_st) (e : event) : ae_acc :=
